@@ -56,7 +56,9 @@ impl Ssh {
         channel.request_subsystem(true, "netconf").await?;
         tracing::info!("netconf ssh subsystem activated");
         let (out_queue_tx, mut out_queue_rx) = mpsc::channel::<Bytes>(32);
-        let (in_queue_tx, in_queue_rx) = mpsc::channel(32);
+        // Unbounded: the pump must never wait for a caller to collect replies, or it stops
+        // draining `out_queue` and a caller that pipelines its requests deadlocks with it.
+        let (in_queue_tx, in_queue_rx) = mpsc::unbounded_channel();
         let out_queue = Sender {
             inner: out_queue_tx,
         };
@@ -92,7 +94,7 @@ impl Ssh {
                                         let end  = index + MARKER.len();
                                         tracing::info!("splitting {end} message bytes from input buffer");
                                         let message = in_buf.split_to(end).freeze();
-                                        in_queue_tx.send(message).await?;
+                                        in_queue_tx.send(message)?;
                                         tracing::debug!("message data enqueued sucessfully");
                                     };
                                 }
@@ -148,7 +150,7 @@ impl SendHandle for Sender {
 
 #[derive(Debug)]
 pub struct Receiver {
-    inner: mpsc::Receiver<Bytes>,
+    inner: mpsc::UnboundedReceiver<Bytes>,
 }
 
 #[async_trait]
